@@ -85,6 +85,15 @@ def _node_of(cfg, sub):
     return best
 
 
+GUARD_EXPANDED = {}      # id(guard if-node) -> the guard tests os.path.expanduser(path)
+EXPANDING_CREATORS = ('writeto',)     # astropy.io.fits expands a leading "~" itself
+
+
+def _is_expanduser_of(e, pathparam):
+    return isinstance(e, ast.Call) and (call_name(e) or '').endswith('expanduser') and len(e.args) == 1 \
+        and isinstance(e.args[0], ast.Name) and e.args[0].id == pathparam
+
+
 def _guards(fn, pathparam):
     """(if-node, uses_lexists, api) for raise-OSError guards on the path param."""
     pm = parents(fn)
@@ -111,9 +120,10 @@ def _guards(fn, pathparam):
         other = []
         for a, pol in atoms:
             if isinstance(a, ast.Call) and (call_name(a) or '').split('.')[-1] in (
-                    'lexists', 'exists', 'isfile') and a.args and \
-                    isinstance(a.args[0], ast.Name) and a.args[0].id == pathparam and pol:
+                    'lexists', 'exists', 'isfile') and a.args and pol and (
+                    (isinstance(a.args[0], ast.Name) and a.args[0].id == pathparam) or _is_expanduser_of(a.args[0], pathparam)):
                 exist_api = call_name(a).split('.')[-1]
+                GUARD_EXPANDED[id(n)] = _is_expanduser_of(a.args[0], pathparam)
             elif isinstance(a, ast.Name) and a.id == 'overwrite' and not pol:
                 overwrite_ok = True
             else:
@@ -126,6 +136,8 @@ def _guards(fn, pathparam):
                     outer = pm[cur]
                 cur = pm[cur]
             res.append((outer, exist_api))
+            if outer is not None:
+                GUARD_EXPANDED[id(outer)] = GUARD_EXPANDED.get(id(n), False)
     return res
 
 
@@ -144,7 +156,35 @@ def r1(ctx):
         gnodes = [i for i, st in cfg.stmt.items()
                   if cfg.kind[i] == 'test' and any(st is g for g in lex)]
         tnodes = [_node_of(cfg, c) for c in creates]
-        if gnodes and cfg.must_pass(tnodes, gnodes):
+        # the guard and the creating call must speak about the same path: the tested name itself is what is created,
+        # with "~" expanded on both sides or on neither
+        differs = []
+        rebinds = [st for st in stmts_of(fn) if isinstance(st, (ast.Assign, ast.AugAssign, ast.AnnAssign)) and any(
+            isinstance(t, ast.Name) and t.id == pathparam
+            for t in (st.targets if isinstance(st, ast.Assign) else [st.target]))]
+        pre_expanded = False
+        if rebinds and all(isinstance(st, ast.Assign) and _is_expanduser_of(st.value, pathparam) for st in rebinds):
+            rn = [_node_of(cfg, st) for st in rebinds]
+            if gnodes and cfg.must_pass(gnodes, rn):
+                pre_expanded, rebinds = True, []
+        guard_exp = pre_expanded or all(GUARD_EXPANDED.get(id(g), False) for g in lex) if lex else False
+        for c in creates:
+            dest = c.args[0] if c.args else next((k.value for k in c.keywords if k.arg in ('file', 'name', 'fileobj')), None)
+            if not (isinstance(dest, ast.Name) and dest.id == pathparam) and not _is_expanduser_of(dest, pathparam):
+                differs.append((c, f'the file is created at `{norm(dest) if dest is not None else "?"}`'))
+                continue
+            create_exp = pre_expanded or _is_expanduser_of(dest, pathparam) or \
+                (call_name(c) or '').split('.')[-1] in EXPANDING_CREATORS
+            if create_exp != guard_exp:
+                differs.append((c, f'`{norm(c.func)}` creates the {"~-expanded" if create_exp else "literal"} path while the '
+                                   f'guard tests the {"~-expanded" if guard_exp else "literal"} one'))
+        if gnodes and cfg.must_pass(tnodes, gnodes) and (differs or rebinds):
+            what = differs[0][1] if differs else f'`{pathparam}` is rebound by `{norm(rebinds[0])[:60]}`'
+            ctx.bad(fi.qualname, 'guard-path-differs',
+                    f'{fmt} writer: the no-clobber guard tests `{pathparam}` but {what}: guard and creation can refer to '
+                    'different files (e.g. "~/x": the literal path does not exist, the expanded one is written)',
+                    fi.loc(differs[0][0] if differs else rebinds[0]))
+        elif gnodes and cfg.must_pass(tnodes, gnodes):
             ctx.ok(f'{fi.qualname}', 'lexists guard dominates every creating call')
         else:
             why = ('guard uses os.path.%s, which is false for dangling symlinks' % weak[0]
